@@ -54,6 +54,15 @@ def check_cassette(ctx, case):
         rid = rec.id
         keys = [k for k, _ in data_desc]
         changed = 0
+
+        def lookups():
+            # listings scan (and may decode) what is stored: they are reads too and must not tie later fetches together
+            list(cas.iter_recording_ids('Cat'))
+            list(cas.iter_recordings_metadata('Cat'))
+            list(cas.iter_recording_ids('Cat', metadata={'no-such-key': None}, limit=1))
+
+        if case.get('lookup_first'):
+            lookups()
         fetched = cas.get_recording(rid)
         for step in script:
             read, how = step['read'], step['how']
@@ -82,6 +91,8 @@ def check_cassette(ctx, case):
                     raise Violation('%s: two get_data(%r) calls returned the same object' % (z.name(cas), k),
                                     'get_data-copy')
             # a new fetch must be pristine whatever was mutated on the previous one
+            if step.get('lookup'):
+                lookups()
             again = cas.get_recording(rid)
             for kk in keys:
                 if again.get_data(kk) != want_data[kk]:
@@ -95,7 +106,8 @@ def check_cassette(ctx, case):
                 # get_data_direct / get_metadata may expose the fetched graph itself: that fetch is now dirty by the
                 # caller's own doing, continue on a new one
                 fetched = again
-    ctx.case(case, changed > 0, classes=('cassette:' + kind,) + tuple('read:' + s['read'] for s in script))
+    ctx.case(case, changed > 0, classes=('cassette:' + kind, 'lookup-before-fetch' if case.get('lookup_first') or any(
+        s.get('lookup') for s in script) else 'no-lookup') + tuple('read:' + s['read'] for s in script))
 
 
 def mutating_variant(prog):
@@ -250,10 +262,11 @@ def cassette_cases():
     meta = st.lists(st.tuples(st.sampled_from(['m1', 'm2']), st.one_of(mutable_values(), V.scalars)), max_size=2,
                     unique_by=lambda kv: kv[0]).map(lambda l: [list(x) for x in l])
     step = st.fixed_dictionaries({'read': st.sampled_from(READS), 'key': st.integers(0, 3), 'how': st.integers(0, 30),
-                                  'refetch': st.booleans()})
+                                  'refetch': st.booleans(), 'lookup': st.sampled_from([False, False, True])})
     return st.fixed_dictionaries({'kind': st.just('cassette'),
                                   'cassette': st.sampled_from(['memory', 'memory', 'file', 's3', 's3p']),
-                                  'data': data, 'meta': meta, 'script': st.lists(step, min_size=1, max_size=5)})
+                                  'data': data, 'meta': meta, 'script': st.lists(step, min_size=1, max_size=5),
+                                  'lookup_first': st.booleans()})
 
 
 def replay_cases():
